@@ -159,7 +159,7 @@ JoinOnlyFrom == Len(ExprMenu) - 4
 
 Positions == {"where", "project", "extendNamed", "extendBare", "sumAgg", "sumAggBare", "sumKey", "sumKeyBare",
               "sort", "sort2", "take", "topN", "topBy", "joinOn", "joinOn2", "let", "renderVal",
-              "arg", "index", "inlist", "paren"}
+              "arg", "index", "inlist", "paren", "joinRightWhere2", "joinRightExtend2"}
 
 InPos(pos, e) ==
   CASE pos = "where" -> <<Tab("T", <<Where(e)>>)>>
@@ -183,6 +183,11 @@ InPos(pos, e) ==
     [] pos = "index" -> <<Tab("T", <<Where(Index(Col("m"), e))>>)>>
     [] pos = "inlist" -> <<Tab("T", <<Where(InE(Col("m"), <<e, Num("9")>>))>>)>>
     [] pos = "paren" -> <<Tab("T", <<Where(Paren(e))>>)>>
+    \* inside another pipeline's parentheses, followed by a further operator there
+    [] pos = "joinRightWhere2" -> <<Tab("T", <<Join(Id("inner"), Tab("B", <<Where(e), Project(<<PCol("k", None), PCol("b", None)>>)>>),
+                                                     <<Col("k")>>)>>)>>
+    [] pos = "joinRightExtend2" -> <<Tab("T", <<Join(None, Tab("B", <<Extend(<<ECol(Id("p"), e)>>), Where(Bin("GT", Col("b"), Num("0")))>>),
+                                                      <<Col("k")>>)>>)>>
 
 \* row counts must not be non-integer literals (parse error by the documented rule)
 PosAdmits(pos, e) ==
@@ -661,6 +666,36 @@ ScopeSc(c) == [params |-> SetupParams(c[1]),
                            [n |-> SetupBefore(c[1], c[2])[i].name.name, x |-> SetupBefore(c[1], c[2])[i].x]]]
 
 ---------------------------------------------------------------------------
+(* family wide: long lists in every list position (the nests of family     *)
+(* stress are deep; these are wide, and they are valid programs)           *)
+
+WideKinds == {"inlist", "callargs", "strcat", "joinconds", "projectcols", "extendcols", "sumaggs", "sumkeys", "sortterms",
+              "renderprops", "lets", "pipeline", "statements"}
+WideSizes == IF Bound >= 1 THEN {17, 33, 70} ELSE {9, 17, 33}
+WideChoices(c) == CASE Len(c) = 0 -> WideKinds [] Len(c) = 1 -> WideSizes [] OTHER -> {}
+Digit(i) == <<"1", "2", "3", "4", "5", "6", "7", "8", "9">>[(i % 9) + 1]
+Nth(pre, i) == pre \o ToString(i)
+WideItems(c) ==
+  LET n == c[2]
+      nums == [i \in 1..n |-> Num(Digit(i))]
+  IN CASE c[1] = "inlist" -> <<Tab("T", <<Where(InE(Col("a"), nums))>>)>>
+       [] c[1] = "callargs" -> <<Tab("T", <<Where(Call("f", nums))>>)>>
+       [] c[1] = "strcat" -> <<Tab("T", <<Extend(<<ECol(Id("s"), Call("strcat", [i \in 1..n |-> IF i % 2 = 1 THEN Col("a") ELSE Str("x")]))>>)>>)>>
+       [] c[1] = "joinconds" -> <<Tab("T", <<Join(Id("inner"), Tab("B", <<>>),
+                                  <<Col("k")>> \o [i \in 1..n |-> Bin("Eq", Qual("$left", "a"), Num(Digit(i)))])>>)>>
+       [] c[1] = "projectcols" -> <<Tab("T", <<Project([i \in 1..n |-> PCol(Nth("p", i), IF i % 2 = 1 THEN Col("a") ELSE None)])>>)>>
+       [] c[1] = "extendcols" -> <<Tab("T", <<Extend([i \in 1..n |-> ECol(Id(Nth("p", i)), Bin("Plus", Col("a"), Num(Digit(i))))])>>)>>
+       [] c[1] = "sumaggs" -> <<Tab("T", <<Summarize([i \in 1..n |-> ECol(Id(Nth("p", i)), Call("count", <<>>))], <<ECol(None, Col("b"))>>, FALSE)>>)>>
+       [] c[1] = "sumkeys" -> <<Tab("T", <<Summarize(<<ECol(Id("n"), Call("count", <<>>))>>, [i \in 1..n |-> ECol(Id(Nth("k", i)), Col("a"))], FALSE)>>)>>
+       [] c[1] = "sortterms" -> <<Tab("T", <<Sort([i \in 1..n |-> IF i % 2 = 1 THEN TermD(Col("a")) ELSE Term(Col("b"), TRUE, TRUE, TRUE, FALSE)])>>)>>
+       [] c[1] = "renderprops" -> <<Tab("T", <<Render("bar", [i \in 1..n |-> Prop(Nth("p", i), Num(Digit(i)))])>>)>>
+       [] c[1] = "lets" -> [i \in 1..n |-> Let(Nth("v", i), Num(Digit(i)))] \o <<Tab("T", <<Where(Bin("Eq", Col("a"), Col(Nth("v", n))))>>)>>
+       [] c[1] = "pipeline" -> <<Tab("T", [i \in 1..n |-> IF i % 3 = 1 THEN Where(Bin("GT", Col("a"), Num(Digit(i))))
+                                                           ELSE IF i % 3 = 2 THEN Extend(<<ECol(Id(Nth("p", i)), Col("a"))>>)
+                                                           ELSE Sort(<<TermD(Col("a"))>>)])>>
+       [] c[1] = "statements" -> [i \in 1..n |-> IF i = n THEN Tab("T", <<Count>>) ELSE Empty]
+
+---------------------------------------------------------------------------
 (* family groups: an operand followed by two or three bracketed / dotted    *)
 (* groups, each well formed or with junk inside, tokens only (C08: whatever *)
 (* the parser accepts must be accounted for; an error found in an earlier   *)
@@ -737,6 +772,7 @@ ChoicesOf(fam, c) ==
     [] fam = "plant" -> PlantChoices(c)
     [] fam = "stress" -> StressChoices(c)
     [] fam = "groups" -> GroupsChoices(c)
+    [] fam = "wide" -> WideChoices(c)
     [] fam = "scope" -> ScopeChoices(c)
 
 BuildOf(fam, c) ==
@@ -750,6 +786,7 @@ BuildOf(fam, c) ==
     [] fam = "deep" -> <<Tab("T", <<Where(Canon(Decode(c)[1]))>>)>>
     [] fam = "plant" -> PlantItems(c)
     [] fam = "scope" -> ScopeItems(c)
+    [] fam = "wide" -> WideItems(c)
 
 \* does every program of the family compile (no documented rule broken)?
 CompilesOf(fam, c) ==
@@ -814,7 +851,7 @@ Spec == Init /\ [][Next]_gvars
 
 ---------------------------------------------------------------------------
 
-TreeFamilies == {"exprpairs", "exprtriples", "unary", "positions", "pipelines", "operators", "statements", "deep", "plant", "scope"}
+TreeFamilies == {"exprpairs", "exprtriples", "unary", "positions", "pipelines", "operators", "statements", "deep", "plant", "scope", "wide"}
 
 \* generated trees are exactly the trees the grammar dictates for their tokens
 GeneratedWellFormed ==
